@@ -112,21 +112,32 @@ class SQLExecutor(object):
 
         return self
 
-    def __exit__(self, *args, **kwargs):
+    def __exit__(self, exc_type=None, exc_value=None, traceback=None,
+                 *args, **kwargs):
         """Exit the context manager.
 
-        This will commit any transaction that may be in progress, close the
+        This will commit any transaction that may be in progress (or roll it
+        back, if the block is being exited due to an exception), close the
         database cursor, and re-enable constraint checking if it were
         previously disabled.
 
         Args:
+            exc_type (type, optional):
+                The type of the exception raised in the block, if any.
+
+            exc_value (Exception, optional):
+                The exception raised in the block, if any.
+
+            traceback (traceback, optional):
+                The traceback for the exception, if any.
+
             *args (tuple, unused):
                 Unused positional arguments.
 
             **kwargs (dict, unused):
                 Unused keyword arguments.
         """
-        self.finish_transaction()
+        self.finish_transaction(exc_type, exc_value, traceback)
 
         self._cursor.close()
         self._cursor = None
@@ -142,7 +153,7 @@ class SQLExecutor(object):
         """
         self.finish_transaction()
 
-        transaction = atomic()
+        transaction = atomic(using=self._database)
         transaction.__enter__()
         self._latest_transaction = transaction
 
@@ -154,13 +165,28 @@ class SQLExecutor(object):
         if not self._latest_transaction:
             self.new_transaction()
 
-    def finish_transaction(self):
-        """Finish and commit a transaction."""
+    def finish_transaction(self, exc_type=None, exc_value=None,
+                           traceback=None):
+        """Finish a transaction.
+
+        The transaction will be committed, unless exception information is
+        provided, in which case it will be rolled back.
+
+        Args:
+            exc_type (type, optional):
+                The type of the exception causing the transaction to end.
+
+            exc_value (Exception, optional):
+                The exception causing the transaction to end.
+
+            traceback (traceback, optional):
+                The traceback for the exception.
+        """
         transaction = self._latest_transaction
 
         if transaction:
-            transaction.__exit__(None, None, None)
             self._latest_transaction = None
+            transaction.__exit__(exc_type, exc_value, traceback)
 
     def run_sql(self, sql, capture=False, execute=False):
         """Run (execute and/or capture) a list of SQL statements.
